@@ -149,7 +149,7 @@ class Report:
             for e in self.internal_errors:
                 print("INTERNAL-ERROR property=%s %s" % (self.pid, e))
             sys.stdout.flush()
-            return 3
+            if not bad: return 3        # a confirmed violation outranks trouble elsewhere in the same run (e.g. a search that could not continue past it)
         print("RESULT property=%s tier=%s evaluations=%d distinct=%d violations=%d known=%d wall=%.1fs" % (
             self.pid, self.tier, evals, distinct, len(bad), len(hit), time.time() - self.t0))
         sys.stdout.flush()
